@@ -516,6 +516,8 @@ def _is_ownership_probe(idx: Index, m, fi, e: ast.AST) -> bool:
     for x in ast.walk(e):
         if isinstance(x, ast.Attribute) and x.attr == "__dict__":
             return True
+        if isinstance(x, ast.Constant) and x.value == "__dict__":
+            return True
         if isinstance(x, ast.Call):
             last = (call_name(x) or "").split(".")[-1]
             if last in OWN_PROBES:
